@@ -22,6 +22,7 @@ import (
 	"github.com/logrange/logrange/pkg/scanner/parser"
 	"github.com/logrange/logrange/pkg/storage"
 	"github.com/logrange/logrange/pkg/utils"
+	"github.com/logrange/logrange/pkg/utils/verifhook"
 	"github.com/pkg/errors"
 	"os"
 	"regexp"
@@ -132,6 +133,7 @@ func (s *Scanner) init(ctx context.Context, events chan<- *model.Event) error {
 
 func (s *Scanner) sync(ctx context.Context, events chan<- *model.Event) {
 	nd := s.scanPaths()
+	verifhook.At("scanner.sync.afterScanPaths")
 	md := s.mergeDescs(s.getDescs(), nd)
 	s.syncWorkers(ctx, md, events)
 	s.setDescs(md)
